@@ -335,6 +335,29 @@ def one_repo(sh, fa, rng, scratch, idx, given=None):
                 sh.violation("encoding-differs", "loaded by name through repo=: %s, inlined: %s" % (exc_name(b1) if st == "exc" else b1[:40].hex(), exc_name(b2) if st2 == "exc" else b2[:40].hex()), dict(info, datum=x, by_name=True))
                 return
         sh.count("loaded_by_name_through_repo")
+        # the repository addressed as the current directory: bare file names, "./name"
+        cwd = os.getcwd()
+        try:
+            os.chdir(d)
+            for spelling in (root + ".avsc", os.path.join(".", root + ".avsc")):
+                st, rel = guard(load_schema, spelling)
+                if st == "ok":
+                    st, rel = guard(to_parsing_canonical_form, rel)
+                if st == "exc" or rel != want_pcf:
+                    sh.violation("load-raised" if st == "exc" else "loaded-schema-differs",
+                                 "load_schema(%r) with the repository as current directory: %s" % (spelling, exc_name(rel) if st == "exc" else rel[:300]), dict(info, spelling=spelling))
+                    return
+            order = topo_orders(types, root, edges, rng)[0]
+            st, rel = guard(load_schema_ordered, [t + ".avsc" for t in order])
+            if st == "ok":
+                st, rel = guard(to_parsing_canonical_form, rel)
+            if st == "exc" or rel != want_pcf:
+                sh.violation("load-ordered-raised" if st == "exc" else "ordered-schema-differs",
+                             "load_schema_ordered with bare file names in the current directory: %s" % (exc_name(rel) if st == "exc" else rel[:300]), dict(info, order=order, bare=True))
+                return
+            sh.count("loaded_from_current_directory")
+        finally:
+            os.chdir(cwd)
         if "." in root:
             sh.count("loaded_by_name_namespaced_root")
         for order in topo_orders(types, root, edges, rng):
